@@ -8,16 +8,49 @@ from ..gen import BLANK, ABSENT
 from ..harnesses import render_case
 from ..monitors import _expected_story_from_send, _msg_base
 
-RULE = ('Every message class x 1..N sources (IDs or carried elements) with a blank ID at every list position x target in '
-        '{present, BLANK, ABSENT where the schema allows} x {compact, pretty-printed}. '
+RULE = ('Every message class x 1..N sources (N=3 quick, 5 thorough; IDs or carried elements) with a blank ID at every list position x target in '
+        '{present, BLANK, ABSENT where the schema allows} x {compact, pretty-printed} x ID pool in {plain, exotic: "0", "00", "None", '
+        '"False", "-1", "0.0", non-ASCII, an inner blank}. '
         'Oracle from the abstract case: the exposed source lists carry exactly the named IDs in message order (a blank listed '
         'ID is None, never another ID); the exposed target carries the named ID, a blank/absent target is None or an element '
         'whose id is None; carried stories/items are exposed with their content (subtree equality against an independent '
         'parse of the message text); inspect() returns and its output contains every non-blank source ID (delimited by '
         'non-alphanumeric characters). Non-trivial = more than one source, a blank ID, a blank/absent target or pretty-printing.')
 
-S_IDS = ['A', 'AB', 'C']
-I_IDS = ['a', 'ab', 'c']
+S_IDS = ['A', 'AB', 'C', 'G', 'H']
+I_IDS = ['a', 'ab', 'c', 'g', 'h']
+P_IDS = ['D', 'E', 'F', 'I', 'J']
+PI_IDS = ['d', 'e', 'f', 'i2', 'j']
+
+# ID pools: every case is generated over the plain pool and again with its IDs replaced one-for-one by "exotic" well-formed
+# IDs: strings that look false, numeric or like None, a prefix pair of them, non-ASCII, an inner blank.
+EXOTIC = {'A': '0', 'AB': '00', 'C': 'é☃', 'G': 'x y', 'H': '-1', 'D': 'Ω', 'E': 'None', 'F': '0.0', 'I': 'False', 'J': 'ж',
+          'a': '0', 'ab': '00', 'c': 'ü ', 'g': 'i d', 'h': '-0', 'd': 'ø', 'e': 'None', 'f': '0.0', 'i2': 'nan', 'j': 'ы'}
+EXOTIC['c'] = 'ü'
+POOLS = {'plain': {}, 'exotic': EXOTIC}
+_KEEP = ('kind', 'packing', 'body_pos', 'timing', 'rich', 'pool', 'n')
+
+
+def subst(x, mp):
+    if isinstance(x, str):
+        return mp.get(x, x)
+    if isinstance(x, tuple):
+        if len(x) == 2 and x[0] in ('p', 'x') and not isinstance(x[1], tuple):
+            return x
+        return tuple(subst(y, mp) for y in x)
+    return x
+
+
+def with_pool(case, pool):
+    mp = POOLS[pool]
+    c = {k: (v if k in _KEEP else subst(v, mp)) for k, v in case.items()}
+    c['pool'] = pool
+    return c
+
+
+def pool_ids(case, ids):
+    mp = POOLS[case.get('pool', 'plain')]
+    return [mp.get(i, i) for i in ids]
 
 
 def story_fn(i, v):
@@ -38,13 +71,13 @@ def id_lists(pool, n):
 
 
 def cases(tier):
-    N = 3
+    N = 3 if tier == 'quick' else 5
     tgt_s = ['AB', BLANK, ABSENT]
     tgt_i = ['ab', BLANK]
     out = []
     for n in range(1, N + 1):
-        pl = tuple((i, 0) for i in ['D', 'E', 'F'][:n])
-        ipl = tuple((i, 0) for i in ['d', 'e', 'f'][:n])
+        pl = tuple((i, 0) for i in P_IDS[:n])
+        ipl = tuple((i, 0) for i in PI_IDS[:n])
         out.append({'kind': 'StoryAppend', 'payload': pl})
         for t in tgt_s:
             if t != ABSENT:
@@ -91,12 +124,13 @@ def cases(tier):
     out.append({'kind': 'RunningOrderEnd'})
     out.append({'kind': 'ReadyToAir'})
     out.append({'kind': 'MetaDataReplace'})
-    for n in range(0, 3):
+    for n in range(0, N + 1):
         out.append({'kind': 'RunningOrderReplace', 'n': n})
     items = []
-    for c in out:
-        for pretty in (False, True):
-            items.append((c, pretty))
+    for pool in POOLS:
+        for c in out:
+            for pretty in (False, True):
+                items.append((with_pool(c, pool), pretty))
     return items
 
 
@@ -105,7 +139,7 @@ def render(case):
     if k == 'MetaDataReplace':
         return gen.msg_metadata_replace(['<roSlug>the new slug</roSlug>', '<roChannel>c</roChannel>'])
     if k == 'RunningOrderReplace':
-        return gen.msg_ro_replace([story_fn(i, 1) for i in S_IDS[:case['n']]])
+        return gen.msg_ro_replace([story_fn(i, 1) for i in pool_ids(case, S_IDS[:case['n']])])
     return render_case(case, story_fn, item_fn)
 
 
@@ -130,10 +164,11 @@ def worker(ns, items, res, opts):
         if pretty or len(srcs) > 1 or BLANK in srcs or tgt in (BLANK, ABSENT) or case.get('story') == BLANK:
             res.nontrivial += 1
         res.by_class[kind] += 1
+        res.by_class['pool:' + case.get('pool', 'plain')] += 1
 
         def bad(dev, detail):
             shape = f"n={len(srcs)}" + (',blank-src' if BLANK in srcs else '') + (f',tgt={gen.ref_name(tgt)}' if tgt in (BLANK, ABSENT) else '') + \
-                    (f",packing={case['packing']}" if case.get('packing') == 'per' else '') + (',pretty' if pretty else '')
+                    (f",packing={case['packing']}" if case.get('packing') == 'per' else '') + (',pretty' if pretty else '') + (',exotic-ids' if case.get('pool') == 'exotic' else '')
             explore.add_simple_finding(res, prop, f'{kind}:{shape}:{dev}', f'{kind} {_show(case)}{" (pretty)" if pretty else ""}: {detail}',
                                        message=text, case=_show(case))
         try:
@@ -223,21 +258,21 @@ def _content(objs, elems, what):
 _STORY_CARRIERS = ('StoryAppend', 'StoryInsert', 'StoryReplace', 'EAStoryInsert', 'EAStoryReplace', 'StorySend', 'RunningOrderReplace')
 
 
-def base_running_order():
-    st = [gen.story_xml(i, 0, body=(('p', 'plain'), ('i', 'a'), ('i', 'ab'), ('i', 'c'))) for i in S_IDS]
+def base_running_order(case):
+    st = [gen.story_xml(i, 0, body=(('p', 'plain'), ('i', 'a'), ('i', 'ab'), ('i', 'c'))) for i in pool_ids(case, S_IDS)]
     return gen.ro_text(st, 'before', gen.meta_elems(2))
 
 
 def after_merge_and_edit(ns, m, case, base, text):
     import warnings as _w
-    ro = ns.mt.MosFile.from_string(base_running_order())
+    ro = ns.mt.MosFile.from_string(base_running_order(case))
     with _w.catch_warnings():
         _w.simplefilter('ignore')
         try:
             ro += m
         except ns.exc.MosMergeError:
             return
-        carried = [p[0] for p in case.get('payload', ())] or ([case['sid']] if case['kind'] == 'StorySend' else S_IDS[:case.get('n', 0)])
+        carried = [p[0] for p in case.get('payload', ())] or ([case['sid']] if case['kind'] == 'StorySend' else pool_ids(case, S_IDS[:case.get('n', 0)]))
         edits = 0
         for cid in carried:
             if cid in (BLANK, ABSENT):
@@ -337,7 +372,7 @@ def check(ns, m, case, base):
         if m.ro_slug != 'the new slug':
             yield ('ro-slug', f'ro_slug {m.ro_slug!r}')
     elif kind == 'RunningOrderReplace':
-        want = S_IDS[:case['n']]
+        want = pool_ids(case, S_IDS[:case['n']])
         if _ids_of(m.stories) != want:
             yield ('source-ids', f'stories {_ids_of(m.stories)} vs {want}')
         r = _content(m.stories, [c for c in base if c.tag == 'story'], 'story')
